@@ -27,7 +27,9 @@ impl TokenSet {
     }
 
     pub(crate) const fn contains(&self, kind: SyntaxKind) -> bool {
-        self.0 & mask(kind) != 0
+        // Only token kinds (< 128) can be members. Node kinds that the lexer emits as tokens
+        // (VERSION_STRING) are never members; shifting by them would overflow.
+        (kind as usize) < 128 && self.0 & mask(kind) != 0
     }
 }
 
